@@ -21,7 +21,11 @@ def classify(w):
         return "seq_absorption_after_zero_order_drops_bioavailability"
     if what.startswith("reversibility") and last in ("transits_1", "transits_3") and bio_present:
         return "transit_removal_loses_bioavailability"
+    if last == "transits_0" and "frame: transits_0 changed lagtime from True to False" in what:
+        return "transits_zero_request_removes_lag_time"
     absorb = [x for x in prev if x.startswith("abs_")]
+    if last == "abs_fo" and absorb and absorb[-1] == "abs_seq" and "changed lagtime from True to False" in what:
+        return "first_order_absorption_after_seq_removes_lag_time"
     if last == "lag_on" and absorb and absorb[-1] == "abs_seq" and what.startswith("reversibility"):
         return "lag_time_requested_with_seq_zo_fo_absorption"
     if last in ("transits_1", "transits_1_nodepot") and "transits_3" in prev and what.startswith("detectability"):
